@@ -52,6 +52,17 @@ class Rec:
         self.log: list[list] = []
         self.subs: dict[str, int] = {}
         self.workers = 0
+        self.worker_by_task: dict[str, int] = {}
+
+    def ref(self, name: str | None = None) -> Any:
+        """(actor kind, reference) of the current task: root name | ensemble index | worker id."""
+        name = (name if name is not None else self.task_name()).rstrip(">")
+        kind = classify_actor(name)
+        if kind in ("watcher", "peerWatcher", "pinger"):
+            return kind, self.subs.get(name)
+        if kind == "worker":
+            return kind, self.worker_by_task.get(name)
+        return kind, None
 
     def add(self, kind: str, *args: Any) -> None:
         self.log.append([self.now(), kind, *args])
@@ -121,6 +132,7 @@ def instrument(rec: Rec, poison: dict) -> Iterator[None]:
             return done, pending
         if timeout is not None:
             rec.add("rtHungWaitBegin", len(tasks), sorted(classify_actor(t.get_name()) for t in tasks))
+            _watch_hung(tasks)
             try:
                 done, pending = await aiotasks.wait(tasks, timeout=timeout, return_when=return_when)
             except asyncio.CancelledError:
@@ -138,8 +150,21 @@ def instrument(rec: Rec, poison: dict) -> Iterator[None]:
         rec.add("scWaitRootsEnd")
         return out
 
+    watched: set[int] = set()
+
+    def _watch_hung(tasks: Any) -> None:
+        for t in tasks:
+            if id(t) in watched:
+                continue
+            watched.add(id(t))
+            kind = classify_actor(t.get_name())
+            rec.add("hungTask", kind, id(t))
+            t.add_done_callback(lambda _t, kind=kind: rec.add("hungEnd", kind, id(_t)))
+
     async def r_stop(tasks: Any, *, title: str, **kw: Any) -> Any:
         tag = {"Root": "rtStopRoots", "Hung": "rtStopHung", "Core": "scStopCore"}.get(title, "stop:" + title)
+        if title == "Hung":
+            _watch_hung(tasks)
         rec.add(tag + "Begin", len(tasks), bool(kw.get("cancelled")))
         try:
             out = await aiotasks.stop(tasks, title=title, **kw)
@@ -281,6 +306,7 @@ def instrument(rec: Rec, poison: dict) -> Iterator[None]:
         wid = rec.workers
 
         async def run() -> Any:
+            rec.worker_by_task[rec.task_name()] = wid
             rec.add("workerStart", wid, classify_actor(owner), rec.subs.get(owner))
             try:
                 out = await orig_worker(**kw)
@@ -295,6 +321,16 @@ def instrument(rec: Rec, poison: dict) -> Iterator[None]:
         return run()
 
     patch(queueing, "worker", q_worker)
+
+    # ---- the watcher's `finally:` begins (depletion of its workers, then scheduler.close()) ---------------
+    orig_depl = queueing._wait_for_depletion
+
+    def q_wait_for_depletion(**kw: Any) -> Any:
+        kind, ref = rec.ref()
+        rec.add("depletionBegin", kind, ref)
+        return orig_depl(**kw)
+
+    patch(queueing, "_wait_for_depletion", q_wait_for_depletion)
 
     # ---- the poisoned processor: one event makes `process_resource_event` raise outside the throttler ----
     orig_pre = processing.process_resource_event
@@ -348,6 +384,19 @@ class PoisonMemo(dict):
         return PoisonMemo(None, self.rec)
 
 
+def _fault_rule(match: dict, fakeapi: Any) -> Any:
+    """HTTP 500 on every matching request from now on."""
+    def rule(req: dict) -> Any:
+        if "method" in match and req["method"] != match["method"]:
+            return None
+        if "path_equals" in match and req["path"].rstrip("/") != match["path_equals"]:
+            return None
+        if "path_contains" in match and match["path_contains"] not in req["path"]:
+            return None
+        return fakeapi.Fault("status", 500)
+    return rule
+
+
 def run_history(sc: dict, wall_limit: float = 30.0) -> dict:
     from harness.sim import fakeapi, observe, runner, scenario, simloop
 
@@ -356,18 +405,20 @@ def run_history(sc: dict, wall_limit: float = 30.0) -> dict:
     async def main() -> None:
         loop = asyncio.get_running_loop()
 
+        sim = scenario.Sim(copy.deepcopy({**sc, "peering": bool(sc.get("peering"))}))
+        rec = Rec(sim.now)
+        out["rec"] = rec
+
         def factory(loop_: Any, coro: Any, **kw: Any) -> asyncio.Task:
-            # anonymous tasks (gather, shield, ensure_future) inherit the creator's name + ">" so that API
+            # anonymous tasks (gather, shield, as_completed) inherit the creator's name + ">" so that API
             # requests made from them can be attributed; explicitly named tasks are renamed by create_task.
             parent = asyncio.current_task(loop_)
             t = asyncio.Task(coro, loop=loop_, **kw)
             if parent is not None:
                 t.set_name(parent.get_name() + ">")
+                t.add_done_callback(lambda t_: rec.add("childEnd", id(t_)) if t_.get_name().endswith(">") else None)
             return t
         loop.set_task_factory(factory)
-        sim = scenario.Sim(copy.deepcopy({**sc, "peering": bool(sc.get("peering"))}))
-        rec = Rec(sim.now)
-        out["rec"] = rec
         out["sim"] = sim
         c, kex = sim.cluster, sim.kex
 
@@ -375,7 +426,8 @@ def run_history(sc: dict, wall_limit: float = 30.0) -> dict:
         def wrap_handler(h: dict, fn: Any) -> Any:
             async def wrapped(**kw: Any) -> Any:
                 name = (kw.get("body") or {}).get("metadata", {}).get("name") if kw.get("body") is not None else None
-                rec.add("hBegin", h["kind"], h["id"], name, kw.get("retry"))
+                wref = rec.ref()[1] if h["kind"] not in ("startup", "cleanup", "daemon") else None
+                rec.add("hBegin", h["kind"], h["id"], name, kw.get("retry"), wref)
                 how = "raised"
                 try:
                     res = await fn(**kw)
@@ -388,7 +440,7 @@ def run_history(sc: dict, wall_limit: float = 30.0) -> dict:
                     how = "raised:" + type(e).__name__
                     raise
                 finally:
-                    rec.add("hEnd", h["kind"], h["id"], name, how)
+                    rec.add("hEnd", h["kind"], h["id"], name, how, wref)
             wrapped.__name__ = wrapped.__qualname__ = fn.__name__
             return wrapped
 
@@ -397,7 +449,7 @@ def run_history(sc: dict, wall_limit: float = 30.0) -> dict:
         sim.registry = scenario.build_registry(sim.sc, sim.obs)
 
         def on_request(req: dict) -> None:
-            actor = classify_actor(rec.task_name())
+            actor, ref = rec.ref()
             req["actor"] = actor
             req["task"] = rec.task_name()
             withdraw = False
@@ -406,7 +458,8 @@ def run_history(sc: dict, wall_limit: float = 30.0) -> dict:
                 if isinstance(st, dict) and any(v is None for v in st.values()):
                     withdraw = True
             req["withdraw"] = withdraw
-            rec.add("api", actor, req["method"], req["path"], bool(req["query"].get("watch")), withdraw)
+            rec.add("api", actor, ref, req["method"], req["path"], bool(req["query"].get("watch")), withdraw,
+                    id(asyncio.current_task()) if rec.task_name().endswith(">") else None)
         c.before_request.append(on_request)
 
         for o in sc.get("objects", []):
@@ -414,6 +467,8 @@ def run_history(sc: dict, wall_limit: float = 30.0) -> dict:
         if sc.get("peering"):
             c.create_raw(fakeapi.CLUSTER_PEERING, None, "default", {})
 
+        if sc.get("initial_faults"):
+            c.fault_rules.append(_fault_rule(sc["initial_faults"], fakeapi))
         poison = {"spec_x": None}
         opkw: dict[str, Any] = {}
         if sc.get("peering"):
@@ -457,8 +512,7 @@ def run_history(sc: dict, wall_limit: float = 30.0) -> dict:
                     poison["spec_x"] = args[1]
                     c.edit(kex, "ns", args[0], {"spec": {"x": args[1]}})
                 elif kind == "faults":           # 5xx on matching requests from now on
-                    spec = {"match": dict(args[0], after=sim.now()), "fault": ["status", 500], "times": 10 ** 6}
-                    c.fault_rules.append(scenario.FaultRule(spec))
+                    c.fault_rules.append(_fault_rule(args[0], fakeapi))
                 elif kind == "new_crd":          # a CRD event makes the resource observer re-scan the group
                     extra_n += 1
                     c.add_resource(fakeapi.ResourceDef("kopf.dev", "v1", f"extras{extra_n}", f"Extra{extra_n}"))
@@ -470,6 +524,7 @@ def run_history(sc: dict, wall_limit: float = 30.0) -> dict:
             rec.add("end", op.alive)
             out["alive_at_end"] = op.alive
             if op.alive:
+                rec.add("op", "flag")
                 # finish the run: a graceful stop; if even that does not end it, abandon the incarnation
                 r = await op.stop(timeout=float(sc.get("final_stop_timeout", 64.0)))
                 out["final_stop"] = repr(r)
